@@ -525,6 +525,8 @@ pub fn family(prop: &str) -> Vec<&'static str> {
         "C04" => vec!["BSET_", "BCLR_", "BNOT_", "BST_", "BIST_", "BTST_", "BLD_", "BILD_", "BAND_", "BIAND_", "BOR_", "BIOR_", "BXOR_", "BIXOR_"],
         "C05" => vec!["BCC_", "JMP_", "JSR_", "BSR_", "RTS"],
         "C06" => vec!["TRAPA", "RTE"],
+        // C09 as seen by a program: every MOV form with a memory operand (observe_at: "through MOV instructions")
+        "C09" => vec!["MOV_"],
         _ => vec![""],
     }
 }
@@ -547,7 +549,7 @@ impl Mode for StepMode {
         };
         let none: BTreeMap<char, u64> = BTreeMap::new();
         match prop {
-            "C01" | "C02" | "C03" | "C04" | "C05" | "C06" | "C08" | "C20" => {
+            "C01" | "C02" | "C03" | "C04" | "C05" | "C06" | "C08" | "C09" | "C20" => {
                 let opt = match prop {
                     "C08" => GenOpt { wild_addr: true, vary_bsc: false, vector_data: true },
                     "C20" => GenOpt { wild_addr: false, vary_bsc: true, vector_data: true },
@@ -557,6 +559,8 @@ impl Mode for StepMode {
                     self.forms.iter().filter(|f| f.valid && (f.ea.is_some() || f.is_family(&["JSR_", "BSR_", "RTS", "RTE", "TRAPA", "JMP_REG"]))).cloned().collect()
                 } else if prop == "C20" {
                     self.forms.iter().filter(|f| f.valid).cloned().collect()
+                } else if prop == "C09" {
+                    forms.into_iter().filter(|f| f.ea.is_some()).collect()
                 } else {
                     forms
                 };
